@@ -55,6 +55,7 @@ pub struct WorldB {
     deadlines_h: Vec<u64>,
     deadlines_t: Vec<u64>,
     queue: std::collections::VecDeque<Step>,
+    multi_denom_done: u32,
     /// admin sets as the history of successful UpdateAdmins requests defines them (request model)
     model_admins: BTreeMap<String, std::collections::BTreeSet<String>>,
     /// subkey allowances as the history of successful admin grants and own spends defines them (request model)
@@ -1070,6 +1071,7 @@ impl World for WorldB {
             deadlines_h: vec![],
             deadlines_t: vec![],
             queue: Default::default(),
+            multi_denom_done: 0,
             model_admins: BTreeMap::new(),
             model_allow: BTreeMap::new(),
         };
@@ -1130,6 +1132,36 @@ impl World for WorldB {
         };
         if let Some(s) = self.queue.pop_front() {
             return s;
+        }
+        if rng.chance(1, 30) && self.multi_denom_done < 2 {
+            // an allowance in every denomination, then one send that uses one of them up exactly and draws on another
+            let admins: Vec<String> = self.last.get("sk").map(|s| s.admins.clone()).unwrap_or_default().into_iter().filter(|a| self.universe.contains(a)).collect();
+            let subs: Vec<String> = self.universe.iter().filter(|u| !admins.contains(u) && self.chain.label_of(u).is_none()).cloned().collect();
+            if let (Some(adm), false) = (admins.first().cloned(), subs.is_empty()) {
+                self.multi_denom_done += 1;
+                let sub = rng.pick(&subs).clone();
+                let tx = |sender: &str, msg: Value| Step::Tx { sender: sender.to_string(), target: "sk".into(), msg, funds: vec![], fault: None, script: vec![] };
+                let amts: Vec<u128> = DENOMS.iter().map(|_| rng.range(5, 120) as u128).collect();
+                let mut seq: Vec<Step> = DENOMS
+                    .iter()
+                    .zip(&amts)
+                    .map(|(d, a)| tx(&adm, json!({"increase_allowance":{"spender": sub, "amount": {"denom": d, "amount": a.to_string()}, "expires": null}})))
+                    .collect();
+                let i0 = rng.below(2) as usize;
+                let i1 = rng.range(i0 as u64 + 1, 2) as usize;
+                // (the amounts are what was just granted; an allowance the subkey already had makes the first coin a partial draw)
+                let second = *rng.pick(&[amts[i1] / 2 + 1, amts[i1], amts[i1] + 1]);
+                let to = self.pick_recipient(rng);
+                let send = CosmosMsg::Bank(BankMsg::Send { to_address: to, amount: vec![Coin::new(amts[i0], DENOMS[i0]), Coin::new(second, DENOMS[i1])] });
+                seq.push(tx(&sub, json!({"execute":{"msgs":[cm(&send)]}})));
+                self.meter.hit("grants_in_every_denom_then_multi_coin_send");
+                let mut it = seq.into_iter();
+                let head = it.next().unwrap();
+                for s in it {
+                    self.queue.push_back(s);
+                }
+                return head;
+            }
         }
         if rng.chance(1, 45) {
             // a code upgrade in the middle of activity (cw1-subkeys has a migrate entry point)
